@@ -19,6 +19,9 @@ type Op struct {
 	// Alias > 0 (data only, honoured by ApplyRealIn): the slice handed to EmitBytes is a window of the emitter's own target
 	// buffer, Alias bytes above the write position, so that it overlaps the destination
 	Alias uint32 `json:"alias,omitempty"`
+	// Nops (data only): the block consists of NOP opcodes ($EA) - instructions emitted as raw bytes; every byte of it is
+	// an instruction start
+	Nops bool `json:"nops,omitempty"`
 }
 
 func (o Op) String() string {
@@ -52,6 +55,9 @@ func (o Op) Data() []byte {
 	b := make([]byte, o.V)
 	for i := range b {
 		b[i] = DataByte(o.Seed, i)
+		if o.Nops {
+			b[i] = 0xEA
+		}
 	}
 	return b
 }
@@ -215,6 +221,11 @@ func (m *Model) Apply(o Op) (accepted bool, reason string) {
 					n = 16
 				}
 				m.Lines = append(m.Lines, Line{Kind: "db", Addr: m.Addr + uint32(i), Off: len(m.Bytes) + i, N: n})
+			}
+		}
+		if o.Nops {
+			for i := range d {
+				m.InsStarts = append(m.InsStarts, m.Addr+uint32(i))
 			}
 		}
 		m.Bytes = append(m.Bytes, d...)
